@@ -442,12 +442,22 @@ def h_delay_translation_in_loop(eng):
     eng.prove("delayloop.delay_symbol_is_mapped_over_the_loop_iff_the_expression_is_indexed", z3.BoolVal((len(registered) == 1 and registered[0] is new[0]) if uses_indexed else not registered))
 
 
+def h_expand_delays(eng):
+    """vector expansion of a delayed array expression (C18's contract of _expand_vectors, restricted to the delayed cases): the delay
+    state named ...[i,j] delays element (i,j) of the expression, with the same duration"""
+    from . import C18
+    for k in ("pymoca.backends.casadi.model",):
+        eng.ext_modules.pop(k, None)
+    C18.h_expand(eng, cases=[c for c in C18.CASES if c[3]])
+
+
 HARNESSES = [("Model._post_checks", h_post_checks), ("Model._post_checks/no-delays", h_no_delays),
              ("Generator.exitExpression#delay-branch", h_delay_translation),
              ("Model.delay_arguments_function", h_delay_arguments_function), ("api._compile_model", h_compile_calls_post_checks),
              ("Model._substitute_delay_arguments", h_substitute_delay_arguments),
-             ("Generator.exitExpression#delay-branch inside a for-loop", h_delay_translation_in_loop)]
-EXPECTED_COVER = {"post.raises", "post.returns", "post.nodelay", "delay.done", "dafn.done", "compile.done", "subst.done", "delayloop.done"}
+             ("Generator.exitExpression#delay-branch inside a for-loop", h_delay_translation_in_loop),
+             ("Model._expand_vectors on delayed array expressions (delay states and arguments element by element)", h_expand_delays)]
+EXPECTED_COVER = {"post.raises", "post.returns", "post.nodelay", "delay.done", "dafn.done", "compile.done", "subst.done", "delayloop.done", "expand.done"}
 BOUNDED = True
 LEVEL = "proof"
 TRUSTED = ["pyvc VC generator", "z3 5.1.0",
